@@ -18,7 +18,8 @@ class Built:
         missing = set(getattr(spec, "missing", ()) or ())
         acts = [a for a in spec.actions if a not in missing]
         grds = [g for g in spec.guards if g not in missing]
-        self.logic = make_logic(self.ctl, acts, grds, services, delays or getattr(spec, "delays", None))
+        self.logic = make_logic(self.ctl, acts, grds, services or getattr(spec, "services", None),
+                                delays or getattr(spec, "delays", None))
         self.machine = create_machine(spec.config, logic=self.logic)
         self.defn = export_machine(self.machine, self.ctl, events=getattr(spec, "events", None),
                                    intended_guards=intended_guards(spec.config))
